@@ -145,6 +145,22 @@ pub fn run_e1(prop: &str, tier: Tier, budget: Duration, frag: &mut Frag) {
         }
         frag.col.merge(r.col);
     }
+    if prop == "C19" {
+        // relabelling sweep first: it is cheap and must not be starved by the profile jobs
+        let (len, nids) = if tier == Tier::Quick { (3, 66) } else { (4, 130) };
+        let t0 = Instant::now();
+        let r = crate::planmc::c19_sweep(len, nids, t0 + Duration::from_secs(if tier == Tier::Quick { 25 } else { 600 }), threads());
+        frag.parts.push(json!({
+            "engine": "E1 planmc", "profile": format!("relabelling sweep: every sequence of <= {} systems over {{read, write}} x {{P, Q}} x running time {{1, 5}} that names both resources, rebuilt with (P, Q) mapped onto every ordered pair of distinct ids of a {}-id universe (two types x dynamic ids 100..)", len, nids),
+            "base_plans": r.stats.states, "relabelled_builds": r.stats.barrier_metamorphic, "transitions": r.stats.transitions, "cap_hit": r.stats.capped, "wall_s": t0.elapsed().as_secs_f64(),
+            "argument": format!("pigeonhole: any classification of resource ids into fewer than {} classes merges two ids of the universe, and every ordered pair is visited", nids),
+        }));
+        frag.states += r.stats.states + r.stats.barrier_metamorphic;
+        frag.transitions += r.stats.transitions;
+        frag.traces_validated += r.stats.barrier_metamorphic;
+        frag.exhaustive &= !r.stats.capped;
+        frag.col.merge(r.col);
+    }
     if fam_n > 0 {
         let t0 = Instant::now();
         let remaining = budget.saturating_sub(start.elapsed()).max(Duration::from_secs(5));
@@ -696,6 +712,21 @@ fn c11_scenarios(w: usize, n: usize) -> Vec<(String, Scenario)> {
             v.push((format!("{} / {} / width {} / {} threads", label, mode.label(), w, n), s));
         }
     }
+    // async: further dispatches issued before the first wait (each blocks the caller until the one in front
+    // of it has completed) must not cost the stage in flight a pool thread
+    for script in if w <= 2 { &["DDW", "DDDW", "DRDW"][..] } else { &["DDW"][..] } {
+        for user in [true, false] {
+            let mut s = Scenario::plain(wide_stage(w), Mode::Async, 0);
+            if user {
+                s.user_pool = Some(n);
+            } else {
+                s.default_threads = Some(n);
+            }
+            s.script = Some(script.to_string());
+            s.rendezvous = Some((ids.clone(), w as u16));
+            v.push((format!("async script {} / width {} / {} threads", script, w, n), s));
+        }
+    }
     // dispatch called from a worker of a foreign one-thread pool: the dispatcher's own pool must be used
     for user in [true, false] {
         let mut s = Scenario::plain(wide_stage(w), Mode::Dispatch, 2);
@@ -736,7 +767,9 @@ pub fn run_c11(tier: Tier, budget: Duration, frag: &mut Frag) {
         // every configuration gets its share of the budget; unused time is passed on
         let deadline = Instant::now() + (budget.saturating_sub(start.elapsed())) / (ncfg - ci as u32);
         // positive: pool size >= width must never deadlock
-        for n in [w, w + 1] {
+        for (ni, n) in [w, w + 1].into_iter().enumerate() {
+            // the second pool size gets at least the second half of the configuration's share
+            let deadline = if ni == 0 { Instant::now() + deadline.saturating_duration_since(Instant::now()) / 2 } else { deadline };
             let scs: Vec<Scenario> = c11_scenarios(w, n).into_iter().map(|x| x.1).collect();
             let opts = ExploreOpts { bounds: (0..=bound).collect(), all_points: false, deadline, max_execs: u64::MAX, keep_traces: 1, deadlock_prop: Some("C11"), delay_mode: delay };
             let t0 = Instant::now();
@@ -883,6 +916,35 @@ pub fn run_c15(tier: Tier, budget: Duration, frag: &mut Frag) {
         let opts = ExploreOpts { bounds: vec![0, 1], all_points: false, deadline: t0 + budget / 4, max_execs: u64::MAX, keep_traces: 0, deadlock_prop: Some("EXPECTED-BLOCKED-CALLER"), delay_mode: false };
         let r = run_scenarios(&scs, Mon::default(), &opts);
         frag.parts.push(json!({"engine":"E2 schedmc","scenarios":"a background system panics whenever it runs: 9 scripts x every system of 6 plans; a call may unwind or block, it must not return as if the dispatch had completed","n_scenarios":scs.len(),"scenarios_completed":r.completed,"schedules":r.executions,"states":r.nodes,"transitions":r.transitions,"deadlocks":r.deadlocks,"cap_hit":r.capped,"wall_s":t0.elapsed().as_secs_f64()}));
+        frag.states += r.nodes;
+        frag.transitions += r.transitions;
+        frag.exhaustive &= !r.capped;
+        frag.col.merge(r.col);
+    }
+    // stages wider, as wide as and narrower than the pool (code that looks at the pool size)
+    {
+        let mut scs = Vec::new();
+        let wmax = if q { 5 } else { 7 };
+        for w in 1..=wmax {
+            for n in 1..=wmax.min(w + 1) {
+                for user in [true, false] {
+                    for script in ["DW", "DWDW", "DDW"] {
+                        let mut sc = Scenario::plain(wide_stage(w), Mode::Async, 0);
+                        if user {
+                            sc.user_pool = Some(n);
+                        } else {
+                            sc.default_threads = Some(n);
+                        }
+                        sc.script = Some(script.to_string());
+                        scs.push(sc);
+                    }
+                }
+            }
+        }
+        let t0 = Instant::now();
+        let opts = ExploreOpts { bounds: vec![0, 1], all_points: false, deadline: t0 + budget / 5, max_execs: u64::MAX, keep_traces: 0, deadlock_prop: Some("C15"), delay_mode: true };
+        let r = run_scenarios(&scs, Mon::default(), &opts);
+        frag.parts.push(json!({"engine":"E2 schedmc","scenarios":format!("one stage of 1..{} side-by-side systems on user-supplied and default pools of 1..width+1 threads; scripts DW, DWDW, DDW", wmax),"n_scenarios":scs.len(),"scenarios_completed":r.completed,"bound_kind":"delay (all deviations)","bounds":[0,1],"schedules":r.executions,"states":r.nodes,"transitions":r.transitions,"deadlocks":r.deadlocks,"cap_hit":r.capped,"wall_s":t0.elapsed().as_secs_f64()}));
         frag.states += r.nodes;
         frag.transitions += r.transitions;
         frag.exhaustive &= !r.capped;
